@@ -412,6 +412,14 @@ func (e *SpecEnv) call(n *ast.CallExpr) Value {
 		if err != nil {
 			panic(verr("spec: val(%q): %v", txt, err))
 		}
+		if len(specRename) > 0 {
+			ast.Inspect(pe, func(n ast.Node) bool {
+				if id, ok := n.(*ast.Ident); ok {
+					id.Name = renamed(id.Name)
+				}
+				return true
+			})
+		}
 		if v, ok := e.st.tmps[exprString(pe)]; ok {
 			return v
 		}
